@@ -3,6 +3,8 @@ package checks
 import (
 	"fmt"
 	"math/rand"
+	"os"
+	"path/filepath"
 	"strings"
 
 	"github.com/opsidian/parsley/data"
@@ -20,7 +22,7 @@ import (
 
 // (form feed, vertical tab, tab, NUL and the Unicode line / paragraph separators and NEL are ordinary characters of a
 // line: only a line feed - after CRLF normalisation - starts a new one)
-var c11alpha = []string{"a", "b", "\n", "\r", "\r\n", " ", "é", "😀", "\n\n", "\r\r\n", "x", "\f", "\t", "\v", "\x00", "\u2028", "\u2029", "\u0085", "\f\n", "a\fb"}
+var c11alpha = []string{"a", "b", "\n", "\r", "\r\n", " ", "é", "😀", "\n\n", "\r\r\n", "x", "\f", "\t", "\v", "\x00", "\u2028", "\u2029", "\u0085", "\f\n", "a\fb", "\ufeff"}
 
 // custom parsley.File implementations of the user: value types (FileSet.AddFile takes the interface). c11genFile is a
 // comparable value - two generated chunks with the same name and length are EQUAL Go values -, c11tableFile carries a
@@ -225,6 +227,7 @@ func c11exec(j run.Job, a *run.Acc) {
 		if len(raws) > 0 && len(raws)%3 == 0 {
 			unnamed = len(raws) / 2
 		}
+		diskName := map[int]string{}
 		nameOf := func(i int) string {
 			if i == unnamed {
 				return ""
@@ -243,6 +246,28 @@ func c11exec(j run.Job, a *run.Acc) {
 			// the file must have its own copy - line and column are computed later, lazily or not
 			mine := append([]byte{}, b...)
 			f := text.NewFile(nameOf(i), mine)
+			if i != unnamed && run.Hash(fmt.Sprint(i, len(raws), string(b)))%48 == 0 {
+				// one file in 48 is a file on disk, loaded with text.ReadFile (its name is its path) - half of them start
+				// with the bytes EF BB BF, which are three bytes of content like any others: every byte of the file has a position
+				if dir, derr := os.MkdirTemp(run.OutRoot(), "c11-readfile-"); derr == nil {
+					if run.Hash(string(b))%2 == 0 {
+						b = append([]byte("\xef\xbb\xbf"), b...)
+						raws[i] = b
+					}
+					path := filepath.Join(dir, fmt.Sprintf("f%d", i))
+					if os.WriteFile(path, b, 0o644) == nil {
+						lf, rerr := text.ReadFile(path)
+						if rerr != nil || lf == nil {
+							a.Violate("ReadFile", "ReadFile-fails-on-a-readable-file", map[string]any{"bytes": len(b), "error": fmt.Sprint(rerr)})
+						} else {
+							f = lf
+							diskName[i] = path
+							a.Count("files loaded from disk with text.ReadFile", 1)
+						}
+					}
+					os.RemoveAll(dir)
+				}
+			}
 			for q := range mine {
 				if q%2 == 0 {
 					mine[q] = '\n'
@@ -328,6 +353,9 @@ func c11exec(j run.Job, a *run.Acc) {
 			line, col := 1, 1
 			for off := 0; off <= len(c); off++ {
 				want := fmt.Sprintf("f%d:%d:%d", i, line, col)
+				if dn, ok := diskName[i]; ok {
+					want = fmt.Sprintf("%s:%d:%d", dn, line, col)
+				}
 				if i == unnamed {
 					want = fmt.Sprintf("%d:%d", line, col)
 				}
